@@ -22,7 +22,7 @@ from vlib.core import site_of
 
 LEVEL = "other"
 EXPLANATION = "C15: method whitelist on the active deque, guard polarity of pop_front, poll-the-rest pairing, refill-loop shape, WAKE-1 with one reasoned exception, chaining of validate_record in validated_seq_join."
-CONFIGS_QUICK = ["Q"]
+CONFIGS_QUICK = ["Q", "M"]
 CONFIGS_THOROUGH = ["Q", "M"]
 
 ALLOWED = {"push_back", "pop_front", "front_mut", "iter_mut", "len", "capacity", "with_capacity", "is_empty", "front", "iter"}
@@ -118,6 +118,27 @@ def check_local(ctx, facts, b):
         e = flow.expr_of(b, pt["args"][1])
         ok = "Stream::poll_next" in str(e) and "into_future" in str(e)
         ctx.ob("LOOP-refill", f"push-item#{k}", ok, "the item polled from the source is pushed" if ok else "pushed item does not derive from the source poll", site_of(b, pb))
+    # ---- END-done
+    ctx.rule("END-done: Ready(None) is returned only when no active item is left (None edge of front_mut) and source.is_done() is true")
+    dn = flow.find_calls(b, re.compile(r"Fuse::<St>::is_done$"))
+    fm = [bb for bb, t, m in dc if m == "front_mut"]
+    nones = []
+    for bb, idx, s in b.iter_assigns():
+        r = s["r"]
+        if r["k"] == "agg" and r.get("adt") == "std::task::Poll" and r["vn"] == "Ready" and flow.expr_of(b, r["ops"][0])[:2] == ("agg", ("std::option::Option", "None")):
+            nones.append(bb)
+    okd = False
+    if dn and nones and fm:
+        sw = flow.next_switch(b, b.term(dn[0][0])["t"])
+        ed2 = flow.switch_edges(b, sw) if sw is not None else None
+        okd = ed2 is not None and all(flow.dominates(dom, ed2[1], x) for x in nones) and all(flow.dominates(dom, fm[0], x) for x in nones)
+        # and on the `no front item` edge
+        fsw = flow.next_switch(b, b.term(fm[0])["t"])
+        if fsw is not None:
+            tt = b.term(fsw)
+            some_t = [tb for v, tb in tt["ts"] if int(v) == 1]
+            okd = okd and all(not flow.dominates(dom, some_t[0], x) for x in nones) if some_t else False
+    ctx.ob("END-done", "ready-none-only-if-drained-and-done", okd, "the join ends only when the window is empty and the source is exhausted" if okd else "the join can end while tasks are still active or the source is merely pending (results silently dropped)", site_of(b, nones[0]) if nones else site_of(b))
     # ---- WAKE-1 with one exception
     wake1(ctx, facts, b, dom, exception="local")
 
@@ -167,6 +188,37 @@ def check_mt(ctx, facts, b):
             ctx.ob("LOOP-refill", "condition", e[1] == "Lt", f"refill condition {e[1]}(remaining, capacity)", site_of(b, bb))
     if not found:
         ctx.missing("LOOP-refill", "remaining() < capacity loop condition (multi_thread)")
+    # END-done: the join may end (Ready(None) / forwarding the spawner's None) only when the source is done
+    ctx.rule("END-done(mt): the spawner is polled only while it has work (remaining() > 0); with no work left the stream ends only on source.is_done(), otherwise it stays Pending")
+    sp = [(bb, t) for bb, t in flow.find_calls(b, re.compile(r"Stream::poll_next$")) if "spawner" in flow.field_names_in(flow.expr_of(b, t["args"][0]))]
+    rem = []
+    for bb in sorted(b.live_blocks()):
+        t = b.term(bb)
+        if t["k"] == "switch":
+            e = flow.expr_of(b, t["o"])
+            if e[0] == "bin" and e[1] in ("Gt", "Ne", "Lt", "Eq", "Ge", "Le") and "remaining" in str(e) and "capacity" not in str(e):
+                rem.append((bb, e, flow.switch_edges(b, bb)))
+    if not sp:
+        ctx.missing("END-done", "spawner.poll_next in multi_thread poll_next")
+    else:
+        ok = False
+        if rem and rem[0][2]:
+            sw, e, ed = rem[0]
+            has_work = ed[1] if e[1] in ("Gt", "Ne") else ed[0]
+            ok = all(flow.dominates(dom, has_work, bb) for bb, _ in sp)
+        ctx.ob("END-done", "spawner-polled-only-with-work", ok, "the spawner's end-of-stream is never mistaken for the end of the join" if ok else "the spawner is polled with nothing in flight: its `None` ends the join although the source is only pending (later tasks are silently dropped)", site_of(b, sp[0][0]))
+    dn = flow.find_calls(b, re.compile(r"Fuse::<St>::is_done$"))
+    nones = []
+    for bb, idx, s in b.iter_assigns():
+        r = s["r"]
+        if r["k"] == "agg" and r.get("adt") == "std::task::Poll" and r["vn"] == "Ready" and flow.expr_of(b, r["ops"][0])[:2] == ("agg", ("std::option::Option", "None")):
+            nones.append(bb)
+    okd = False
+    if dn and nones:
+        sw = flow.next_switch(b, b.term(dn[0][0])["t"])
+        ed = flow.switch_edges(b, sw) if sw is not None else None
+        okd = ed is not None and all(flow.dominates(dom, ed[1], x) for x in nones)
+    ctx.ob("END-done", "ready-none-only-if-source-done", okd, "Ready(None) only when the source is exhausted" if okd else "the join can end without the source being done", site_of(b, nones[0]) if nones else site_of(b))
     wake1(ctx, facts, b, dom, exception="mt")
 
 
